@@ -336,7 +336,7 @@ def call_view(d, x, v, kind, use_method):
     if n == "norm" and k != "cp":
         return lambda: x.norm()   # FactorizedTensor.norm (wrapper objects only): l2 norm of to_tensor()
     if k == "cp":
-        if n == "tensor": return (lambda: cp.cp_to_tensor(x, mask=np.array(d["mask"], dtype=np.float64))) if d.get("mask") is not None else (lambda: cp.cp_to_tensor(x))
+        if n == "tensor": return (lambda: cp.cp_to_tensor(x, mask=np.array(d["mask"], dtype=np.dtype(d.get("mask_dtype") or "float64")))) if d.get("mask") is not None else (lambda: cp.cp_to_tensor(x))
         if n == "unfolded": return lambda: cp.cp_to_unfolded(x, v[1])
         if n == "vec": return lambda: cp.cp_to_vec(x)
         if n == "norm": return lambda: cp.cp_norm(x)
@@ -599,6 +599,22 @@ def pick_shapes(rng, tier, orders, dims=(1, 2, 3), full_to=3, sample=12):
     return out
 
 
+def repeated_modes(rng, rk, lo=2, hi=4):
+    """a list of modes with at least one repeat, and factors that fit the running shape (stable order among equal modes);
+    returns (modes, factors, index of a factor whose mode occurred before and whose column count differs from the core's size or None)"""
+    o = len(rk)
+    k = rng.randint(lo, hi)
+    ms = [rng.randrange(o) for _ in range(k)]
+    ms[rng.randrange(1, k)] = ms[0]
+    cur = list(rk); fs = [None] * k; later = None
+    for j in sorted(range(k), key=lambda j: ms[j]):
+        n = rng.choice([1, 2, 3])
+        if cur[ms[j]] != rk[ms[j]]:
+            later = j
+        fs[j] = rint(rng, (n, cur[ms[j]])); cur[ms[j]] = n
+    return ms, fs, later
+
+
 def signed_perm_cols(rng, J, R):
     """J x R matrix with orthonormal integer columns (signed distinct unit vectors); needs J >= R"""
     P = np.zeros((J, R), dtype=np.int64)
@@ -621,7 +637,22 @@ def gen_valid(tier, rng):
             if len(s) >= 1 and (T or rng.random() < 0.6):
                 wk = rng.choice(["none", "ones", "signed"])
                 mk = rint(rng, s, 0, 1, nonzero=False) if rng.random() < 0.7 else rint(rng, s, -1, 2, nonzero=False)
-                yield dict(kind="cp", w=weights(rng, wk, R), fs=[rint(rng, (n, R)) for n in s], mask=mk, wk=wk)
+                yield dict(kind="cp", w=weights(rng, wk, R), fs=[rint(rng, (n, R)) for n in s], mask=mk, wk=wk, mask_dtype=rng.choice(["float64", "int64"]))
+            if len(s) == 1:
+                # order-1 CP tensors ("just a vector" branch) with weights=None, on every run: a 0/1 mask that hides an entry (bool / int64 /
+                # float64 array) and a general integer mask (a mask applied twice, or not at all, shows)
+                n = s[0]
+                m01 = np.ones(n, dtype=np.int64)
+                m01[rng.randrange(n)] = 0                      # one hidden entry; n >= 2: at least one visible one
+                if n >= 3 and rng.random() < 0.5:
+                    m01[rng.choice([j for j in range(n) if m01[j] == 1])] = 0
+                mg = np.array([rng.choice([-1, 2, 3]) for _ in range(n)], dtype=np.int64)
+                for mk, mdt in ((m01, rng.choice(["bool", "int64", "float64"])), (mg, rng.choice(["int64", "float64"]))):
+                    f1 = rint(rng, (n, R))
+                    for j in range(n):                  # no zero entry in the vector: a hidden entry is visibly hidden
+                        if f1[j].sum() == 0:
+                            f1[j, 0] += 1
+                    yield dict(kind="cp", w=None, fs=[f1], mask=mk, wk="none", mask_dtype=mdt)
     # ---- Tucker
     for s in pick_shapes(rng, tier, [1, 2, 3, 4], full_to=2, sample=14 if not T else 81):
         for rep in range(2 if not T else 3):
@@ -633,6 +664,10 @@ def gen_valid(tier, rng):
                 # tucker_to_tensor(..., modes=ms): a random non-empty selection of pairwise distinct modes in random order
                 ms = rng.sample(range(len(s)), rng.randint(1, len(s)))
                 yield dict(kind="tucker", core=core, fs=[rint(rng, (rng.choice([1, 2, 3]), rk[m])) for m in ms], modes=ms, views=[("tensor",)], no_wrapper=True)
+                # repeated modes: the (factor, mode) pairs are sorted by mode (stable) and multiplied one after the other, a later factor of
+                # the same mode contracting the size the earlier one left
+                ms2, fs2, _ = repeated_modes(rng, rk)
+                yield dict(kind="tucker", core=core, fs=fs2, modes=ms2, views=[("tensor",)], no_wrapper=True)
             if rep == 0:
                 yield dict(kind="tucker", core=core, fs=fs, skip=rng.randrange(len(s)))
                 yield dict(kind="tucker", core=core, fs=[f.T.copy() for f in fs], tr=True, skip=(rng.randrange(len(s)) if rng.random() < 0.4 else None))
@@ -799,6 +834,13 @@ def gen_malformed(tier, rng):
         msb = rng.sample(range(ob), rng.randint(1, ob)); jm = rng.randrange(len(msb))
         yield dict(kind="tucker", core=rint(rng, rb), fs=[rint(rng, (2, rb[m] + (1 if j == jm else 0))) for j, m in enumerate(msb)], modes=msb, views=[("tensor",)],
                    no_wrapper=True, why="modes=...: a factor whose columns differ from the core size along ITS mode")
+        for _try in range(6):
+            msr, fsr, later = repeated_modes(rng, rb)
+            if later is not None and fsr[later].shape[1] != rb[msr[later]]:
+                fsr = list(fsr); fsr[later] = rint(rng, (fsr[later].shape[0], rb[msr[later]]))
+                yield dict(kind="tucker", core=rint(rng, rb), fs=fsr, modes=msr, views=[("tensor",)], no_wrapper=True,
+                           why="modes=... with a repeated mode: the later factor has the column count of the ORIGINAL core mode, not of the size the earlier factor left")
+                break
         yield dict(kind="tucker", core=rint(rng, rb), fs=[rint(rng, (n, r)) for n, r in zip(sb, rb)] + [rint(rng, (2, 2))], skip=ob,
                    why="more factors than core modes, the superfluous one skipped")
         # --- TT
@@ -880,6 +922,29 @@ def gen_malformed(tier, rng):
         yield dict(kind="p2", w=None, fs=[A, rint(rng, (R, R + 1)), Cm], ps=ps, why="B with the wrong number of columns", views=P2V)
         yield dict(kind="p2", w=rint(rng, (R + 1,)), fs=[A, B, Cm], ps=ps, why="weights of the wrong length", views=P2V)
         yield dict(kind="p2", w=None, fs=[A, B], ps=ps, why="two factors only", views=V)
+    # --- PARAFAC2, on every run: exactly ONE projection is not orthonormal, at the first / a middle / the last position; the validator, the
+    # wrapper constructor and every reconstruction view (all slices) under both backends must refuse the set
+    for I in ((3,) if tier == "quick" else (3, 4, 5)):
+        for pos, i in (("first", 0), ("middle", I // 2), ("last", I - 1)):
+            kinds = ["entry", "zero", "scaled", "repeated"]
+            rng.shuffle(kinds)
+            for defect in kinds[:2 if tier == "quick" else 4]:
+                R = rng.randint(2 if defect == "repeated" else 1, 3); K = rng.randint(1, 3)
+                Js = [rng.randint(R, R + 2) for _ in range(I)]
+                ps = [signed_perm_cols(rng, J, R) for J in Js]
+                bad = [p.copy() for p in ps]
+                if defect == "entry":
+                    bad[i][rng.randrange(Js[i]), rng.randrange(R)] += rng.choice([1, 2])
+                elif defect == "zero":
+                    bad[i][:, rng.randrange(R)] = 0
+                elif defect == "scaled":
+                    bad[i] = rng.choice([2, -2, 3]) * bad[i]
+                else:
+                    c = rng.randrange(1, R); bad[i][:, c] = bad[i][:, 0]
+                wk = rng.choice(["none", "ones", "signed"])
+                yield dict(kind="p2", w=weights(rng, wk, R), wk=wk, fs=[rint(rng, (I, R)), rint(rng, (R, R)), rint(rng, (K, R))], ps=bad,
+                           why=f"only the {pos} of {I} projections is not orthonormal ({defect})",
+                           views=[("validate",), ("tensor",), ("slices",), ("vec",)] + [("slice", j) for j in range(I)] + [("unfolded", m) for m in range(3)])
 
 
 def well_formed_py(d):
@@ -898,8 +963,14 @@ def well_formed_py(d):
             fs, core = d["fs"], d["core"]
             if d.get("modes") is not None:
                 ms = list(d["modes"])
-                return (len(ms) == len(fs) and len(set(ms)) == len(ms) and all(0 <= m < core.ndim for m in ms)
-                        and all(f.ndim == 2 and f.shape[1] == core.shape[m] for f, m in zip(fs, ms)))
+                if len(ms) != len(fs) or not all(0 <= m < core.ndim for m in ms) or not all(f.ndim == 2 for f in fs):
+                    return False
+                cur = list(core.shape)   # running shape; the pairs of one mode act in list order
+                for f, m in zip(fs, ms):
+                    if f.shape[1] != cur[m]:
+                        return False
+                    cur[m] = f.shape[0]
+                return True
             if d.get("tr"):   # transpose_factors=True: the stored matrices are the transposed factors
                 fs = [f.T if f.ndim == 2 else f for f in fs]
             return len(fs) >= 2 and len(fs) == core.ndim and all(f.ndim == 2 and f.shape[1] == core.shape[i] for i, f in enumerate(fs))
@@ -1010,7 +1081,7 @@ def payload_arrays(d):
         p["cplx"] = [d["cplx"][0], d["cplx"][1], {"shape": list(d["cplx"][2].shape), "values": [_num(x) for x in d["cplx"][2].ravel()]}]
     if d.get("views") is not None:
         p["views"] = [list(v) for v in d["views"]]
-    for key in ("skip", "tr", "why", "onedim", "onedim_exact", "late_reject", "rational", "dtypes", "no_wrapper", "half", "negmodes", "modes"):
+    for key in ("skip", "tr", "why", "onedim", "onedim_exact", "late_reject", "rational", "dtypes", "no_wrapper", "half", "negmodes", "modes", "mask_dtype", "wk"):
         if d.get(key) is not None:
             p[key] = d[key]
     return p
@@ -1031,7 +1102,7 @@ def from_payload(p):
     for key in ("fs", "cores", "ps"):
         if p.get(key) is not None:
             d[key] = [arr(a) for a in p[key]]
-    for key in ("skip", "tr", "why", "onedim", "onedim_exact", "late_reject", "rational", "dtypes", "no_wrapper", "half", "negmodes", "modes"):
+    for key in ("skip", "tr", "why", "onedim", "onedim_exact", "late_reject", "rational", "dtypes", "no_wrapper", "half", "negmodes", "modes", "mask_dtype", "wk"):
         if p.get(key) is not None:
             d[key] = p[key]
     return d
@@ -1213,7 +1284,8 @@ def run_shards_with_retry(cases, shard):
 
 def zero_order_probe(chk):
     """the 0-order branches (a Python number instead of a factor set): _validate_cp_tensor(x) = (0, 0), cp_to_tensor(x) = x, tt_to_tensor(x) = x.
-    Predicates only (the Coq model has no scalar input); what _validate_tt_tensor(x) does is recorded, not judged."""
+    Predicates here; the correspondence with the Coq model of these branches (Model/Factorized2.v: cp_in / tt_in) is zero_order_cases.
+    What _validate_tt_tensor(x) does is recorded, not judged."""
     from tensorly import cp_tensor as cp, tt_tensor as tt
     obs = {}
     for x in (2.5, 3):
@@ -1226,6 +1298,50 @@ def zero_order_probe(chk):
                 chk.finding("tensorly.cp_tensor." + ("_validate_cp_tensor" if name == "validate_cp" else name) if name != "tt_to_tensor" else "tensorly.tt_tensor.tt_to_tensor",
                             {"zero_order": x}, f"{name}({x!r}) = {val!r}, expected {want!r} (0-order branch)", "C03_zero_order_identity")
     chk.cov["zero_order"] = obs
+
+
+def zero_order_cases(start_id, rng):
+    """0-order inputs through the model: a Python int / float x handed to _validate_cp_tensor, cp_to_tensor (with and without a mask),
+    cp_to_vec, cp_to_unfolded, cp_norm, tt_to_tensor, tt_to_vec, tt_to_unfolded -> [(case literal, description, n_calls)]"""
+    from tensorly import cp_tensor as cp, tt_tensor as tt
+    out = []
+
+    def num_out(v, res):
+        st, val = res
+        if st != "ok":
+            return "OErr"
+        if v == "validate":
+            try:
+                a, b = val
+                return "(OSR [] [0%nat])" if (isinstance(a, int) and isinstance(b, int) and a == 0 and b == 0) else "OBad"
+            except Exception:
+                return "OBad"
+        if v == "norm":
+            return out_lit(("norm",), res)
+        a = np.asarray(val)
+        if a.dtype.kind not in "fiu" or not is_integral(a):
+            return "OBad"
+        return f"(OT {arr_lit(a)})"
+    xs = [3, 2.0, float(rng.randint(-4, -1)), 0, rng.randint(5, 9)]
+    for x in xs:
+        xi = int(x)
+        mask = np.array([rng.randint(0, 1)], dtype=np.float64)
+        obs = [("VValidate", "validate", C.call_impl(lambda: cp._validate_cp_tensor(x))),
+               ("VTensor", "tensor", C.call_impl(lambda: cp.cp_to_tensor(x))),
+               ("VVec", "vec", C.call_impl(lambda: cp.cp_to_vec(x))),
+               ("(VUnfolded 0%nat)", "unfolded", C.call_impl(lambda: cp.cp_to_unfolded(x, 0))),
+               ("VNorm", "norm", C.call_impl(lambda: cp.cp_norm(x)))]
+        lit = f"(CViews {start_id + len(out)}%nat (DCpNum {C.z(xi)} None) [" + "; ".join(f"({vl}, {num_out(v, r)})" for vl, v, r in obs) + "])"
+        out.append((lit, {"kind": "cp (0-order)", "x": x, "type": type(x).__name__}, len(obs)))
+        obs = [("VTensor", "tensor", C.call_impl(lambda: cp.cp_to_tensor(x, mask=mask)))]
+        lit = f"(CViews {start_id + len(out)}%nat (DCpNum {C.z(xi)} (Some {arr_lit(mask.astype(np.int64))})) [" + "; ".join(f"({vl}, {num_out(v, r)})" for vl, v, r in obs) + "])"
+        out.append((lit, {"kind": "cp (0-order, masked)", "x": x, "type": type(x).__name__}, len(obs)))
+        obs = [("VTensor", "tensor", C.call_impl(lambda: tt.tt_to_tensor(x))),
+               ("VVec", "vec", C.call_impl(lambda: tt.tt_to_vec(x))),
+               ("(VUnfolded 0%nat)", "unfolded", C.call_impl(lambda: tt.tt_to_unfolded(x, 0)))]
+        lit = f"(CViews {start_id + len(out)}%nat (DTtNum {C.z(xi)}) [" + "; ".join(f"({vl}, {num_out(v, r)})" for vl, v, r in obs) + "])"
+        out.append((lit, {"kind": "tt (0-order)", "x": x, "type": type(x).__name__}, len(obs)))
+    return out
 
 
 def run(chk):
@@ -1270,6 +1386,10 @@ def run(chk):
             chk.hist("weights", d.get("wk", "given"))
         if len(meta) % 97 == 0:
             chk.sample({"decomposition": desc, "observed_views": [f"{v} -> {o[:120]}" for v, o in pairs[:4]]}, maxn=6)
+    for lit, desc, ncalls in zero_order_cases(len(meta), rng):
+        cases.append(lit); meta.append((desc, None))
+        chk.count(key=("zero-order", desc["kind"], desc["type"]), nontrivial=False, n=ncalls)
+        chk.hist("family", "0-order number")
     failing, n_eval, broken = run_shards_with_retry(cases, shard=120 if tier == "quick" else 100)
     chk.checker_cmds.append("coqc (vm_compute) on generated build/cases/C03/*.v: Corr.C03.failing")
     chk.cov["traces_validated_against_impl"] = n_eval
@@ -1289,7 +1409,7 @@ def run(chk):
         chk.broken.append({"what": "correspondence corr:C03 shard not evaluated", "detail": b})
     for i in sorted(failing):
         desc, d = meta[i]
-        chk.disagreement("corr:C03 (Model/Factorized.v vs tensorly factorised-tensor modules)", {"decomposition": desc, "data": payload_arrays(d)})
+        chk.disagreement("corr:C03 (Model/Factorized.v vs tensorly factorised-tensor modules)", {"decomposition": desc, "data": payload_arrays(d) if d is not None else desc})
     chk.assumptions = ["integer-valued factors with |entries| <= 4, so every float64 partial sum is exact (no rounding gap between model and code)",
                        "the to_tensor routes are modelled for 2-D (and, rank 1, 1-D) CP factors, 2-D Tucker factors, 3-D TT/TR cores, 4-D TT-matrix cores; other ndims only through the validators",
                        "mixed-dtype / complex / half-integer factor sets are compared by VALUE after exact conversion (the model has no dtype); a complex array is split into two integer cases by linearity",
